@@ -507,6 +507,51 @@ def verify_function(qualname, contract, schema, timeout_ms=10000, contracts=None
     return rep
 
 
+def apply_contract(it, fi, contract, args, kwargs, node=None):
+    """MODULAR call: the caller sees the callee's contract, not its body.  The callee's requires become obligations of the caller
+    (`pre:` ...), the locations in its modifies clause are havocked, its ensures are assumed.  Supported frames: scalar fields of
+    the receiver (`self.f`); the callee's contract is discharged on its own (it is a registered contract)."""
+    argnames = [a.arg for a in fi.node.args.args]
+    env = {}
+    for n_, v in zip(argnames, args):
+        env[n_] = v
+    for k, v in kwargs.items():
+        env[k] = v
+    line = getattr(node, "lineno", None)
+    saved_mode, saved_def, saved_old = it.spec_mode, it.definedness, it.old_state
+    it.spec_mode, it.definedness = True, False
+    try:
+        for i, r in enumerate(contract.get("requires", [])):
+            v = it.truth(it.eval(parse_expr(r), dict(env)))
+            if isinstance(v, (ForallV, ExistsV, tuple)):
+                raise Unsupported("modular call of %s: quantified precondition" % fi.qualname)
+            it.oblige("defined", "pre:%s.requires[%d]@L%s" % (fi.qualname.split(":")[-1], i, line), v if not isinstance(v, bool) else z3.BoolVal(v), line,
+                      note="precondition of the callee's contract at the call site: %s" % r)
+        old_heap = it.heap.copy()
+        old_env = dict(env)
+        for m in contract.get("modifies", []):
+            mn = parse_expr(m)
+            if not (isinstance(mn, ast.Attribute) and isinstance(mn.value, ast.Name) and mn.value.id == "self"):
+                raise Unsupported("modular call of %s: frame entry %s (only scalar fields of the receiver are supported)" % (fi.qualname, m))
+            o = env["self"]
+            kind = it.field_kind(o.classes, mn.attr)
+            if kind not in ("real", "int", "bool"):
+                raise Unsupported("modular call of %s: frame entry %s of kind %s" % (fi.qualname, m, kind))
+            sort = {"real": z3.RealSort(), "int": z3.IntSort(), "bool": z3.BoolSort()}[kind]
+            it.heap.write_scal(it.fq(o, mn.attr), kind, o.ref, fresh("havoc_" + mn.attr, sort))
+        it.old_state = (old_heap, old_env)
+        post_env = dict(env)
+        post_env["result"] = None
+        for entry in contract.get("ensures", []):
+            expr = entry[1] if isinstance(entry, tuple) else entry
+            v = it.truth(it.eval(parse_expr(expr), dict(post_env)))
+            assume_spec(it, v, "callee-ensures")
+        it.assumptions_log.add("modular call: %s is represented by its contract (discharged separately)" % fi.qualname)
+    finally:
+        it.spec_mode, it.definedness, it.old_state = saved_mode, saved_def, saved_old
+    return None
+
+
 def frame_obligations(it, modifies, old_heap, old_env, pid):
     mod = Modifies(it, modifies, old_env)
     new_heap = it.heap
@@ -793,12 +838,83 @@ def goal_index_terms(ob, limit=10):
     return out
 
 
+def div_cancel_hints(terms, limit=40):
+    """valid facts of real arithmetic the nonlinear solver does not find by itself:  d != 0  =>  (a*d)/d == a   for quotients
+    whose (linearly simplified) numerator has the denominator as a factor"""
+    hints = []
+    seen = set()
+    stack = list(terms)
+    while stack and len(hints) < limit:
+        t = stack.pop()
+        if not z3.is_expr(t) or t.get_id() in seen:
+            continue
+        seen.add(t.get_id())
+        stack.extend(t.children())
+        if z3.is_app(t) and t.decl().kind() == z3.Z3_OP_DIV and z3.is_real(t):
+            num, d = t.children()
+            if z3.is_rational_value(d):
+                continue
+            hints.append(z3.Implies(d != 0, t * d == num))  # (x/d)*d == x
+            ns = z3.simplify(num)
+            if z3.is_app(ns) and ns.decl().kind() == z3.Z3_OP_MUL:
+                fs = ns.children()
+                for i, f in enumerate(fs):
+                    if f.eq(d):
+                        rest = fs[:i] + fs[i + 1:]
+                        a = rest[0] if len(rest) == 1 else z3.Product(*rest)
+                        hints.append(z3.Implies(d != 0, t == a))
+                        break
+    return hints
+
+
+def div_cancel_rewrite(assumptions, goal):
+    """(a*d)/d -> a wherever the assumptions entail d != 0 (checked by the solver first): the same problem with the quotient
+    removed, which keeps it inside linear arithmetic.  Returns (assumptions', goal') or None when nothing applies."""
+    pairs = []
+    seen = set()
+    stack = [goal] + list(assumptions)
+    while stack:
+        t = stack.pop()
+        if not z3.is_expr(t) or t.get_id() in seen:
+            continue
+        seen.add(t.get_id())
+        stack.extend(t.children())
+        if z3.is_app(t) and t.decl().kind() == z3.Z3_OP_DIV and z3.is_real(t):
+            num, d = t.children()
+            if z3.is_rational_value(d):
+                continue
+            ns = z3.simplify(num)
+            if z3.is_app(ns) and ns.decl().kind() == z3.Z3_OP_MUL:
+                fs = ns.children()
+                for i, f in enumerate(fs):
+                    if f.eq(d):
+                        rest = fs[:i] + fs[i + 1:]
+                        pairs.append((t, rest[0] if len(rest) == 1 else z3.Product(*rest), d))
+                        break
+    if not pairs:
+        return None
+    ok = []
+    dens = {}
+    for t, a, d in pairs:
+        if d.get_id() not in dens:
+            sd = _solver(2000)
+            sd.add(*assumptions)
+            sd.add(d == 0)
+            dens[d.get_id()] = sd.check() == z3.unsat
+        if dens[d.get_id()]:
+            ok.append((t, a))
+    if not ok:
+        return None
+    return [z3.substitute(x, *ok) for x in assumptions], z3.substitute(goal, *ok)
+
+
 def full_assumptions(ob, timeout_ms, rep=None):
     base = list(ob.assumptions)
     ob.index_terms = goal_index_terms(ob)
     for q in ob.qfacts:
         base += q.instances(ob.index_terms)
     base += core.str_distinct_facts()
+    base += div_cancel_hints([ob.goal] + list(ob.assumptions))
     lf = lemma_facts(base, ob.goal, ob.index_terms, ob.qfacts, timeout_ms, rep)
     # a second round: lemma facts may mention new applications (unfoldings)
     if lf:
@@ -896,15 +1012,17 @@ def discharge(ob, timeout_ms=10000, rep=None):
         for q in ob.qfacts:
             base += q.instances(ob.index_terms)
         base += core.str_distinct_facts()
-        s1 = _solver(min(timeout_ms, 3000))
-        s1.add(*base)
-        s1.add(z3.Not(ob.goal))
-        s1.add(*core.list_axiom_instances(base + [ob.goal]))
-        if s1.check() == z3.unsat:
-            ob.status = "proved"
-            ob.backend = "z3"
-            ob.seconds = time.time() - t0
-            return ob
+        rw = div_cancel_rewrite(base, ob.goal)
+        for b_, g_ in ([rw] if rw is not None else []) + [(base, ob.goal)]:
+            s1 = _solver(min(timeout_ms, 3000))
+            s1.add(*b_)
+            s1.add(z3.Not(g_))
+            s1.add(*core.list_axiom_instances(list(b_) + [g_]))
+            if s1.check() == z3.unsat:
+                ob.status = "proved"
+                ob.backend = "z3"
+                ob.seconds = time.time() - t0
+                return ob
     try:
         assumptions = full_assumptions(ob, timeout_ms, rep)
     except Exception as e:  # pragma: no cover
@@ -912,7 +1030,7 @@ def discharge(ob, timeout_ms=10000, rep=None):
         ob.note = "%s: %s" % (type(e).__name__, e)
         ob.seconds = time.time() - t0
         return ob
-    s = _solver(timeout_ms if ob.kind != "cover" else min(timeout_ms, 8000))
+    s = _solver(timeout_ms if ob.kind != "cover" else min(timeout_ms, 4000))
     if ob.kind == "cover":
         s.set("rlimit", 30000000)  # the wall-clock timeout is not always honoured by the nonlinear engine
     s.add(*assumptions)
@@ -945,7 +1063,7 @@ def discharge(ob, timeout_ms=10000, rep=None):
                 s = s2
                 ob.note = (ob.note or "") + " [decided on retry %d]" % (attempt + 1)
                 break
-    if r == z3.unknown:
+    if r == z3.unknown and ob.kind != "cover":
         r2 = _try_cvc5(s, timeout_ms)
         if r2 is not None:
             r = r2
@@ -959,7 +1077,7 @@ def discharge(ob, timeout_ms=10000, rep=None):
         else:
             # the consistency of the lemma instances could not be decided within the budget: fall back to the path
             # assumptions alone (what the path exploration itself relies on)
-            s0 = _solver(min(timeout_ms, 10000))
+            s0 = _solver(min(timeout_ms, 4000))
             base0 = list(ob.assumptions)
             for q in ob.qfacts:
                 base0 += q.instances(ob.index_terms)
